@@ -28,12 +28,14 @@ type rItem struct {
 }
 
 type rRound struct {
-	Items    []rItem `json:"items"`
-	Cuts     []int   `json:"cuts,omitempty"`
-	Mode     string  `json:"mode"`                // manual | until-true | until-eof | until-err | until-nil
-	StopAt   int     `json:"stop_at,omitempty"`   // until-eof/until-err: index of the callback invocation that aborts
-	EEDHooks int     `json:"eed_hooks,omitempty"` // hooks registered before this round
-	EnvHooks int     `json:"env_hooks,omitempty"`
+	Items []rItem `json:"items"`
+	Cuts  []int   `json:"cuts,omitempty"`
+	Mode  string  `json:"mode"` // manual | until-true | until-eof | until-err | until-nil
+	// ErrEOF: the callback's error wraps io.EOF (legal: only an UNWRAPPED io.EOF has a special meaning).
+	ErrEOF   bool `json:"err_eof,omitempty"`
+	StopAt   int  `json:"stop_at,omitempty"`   // until-eof/until-err: index of the callback invocation that aborts
+	EEDHooks int  `json:"eed_hooks,omitempty"` // hooks registered before this round
+	EnvHooks int  `json:"env_hooks,omitempty"`
 	// Poll: the consumer starts the call with wait=false and retries (yielding) while nothing is ready.
 	Poll bool `json:"poll,omitempty"`
 	// ConcurrentHook registers one more EED hook from a second task while this round's response is delivered.
@@ -236,6 +238,7 @@ func genRounds(r *Rand, nRounds int, eedPct, envPct int, hooks bool) []rRound {
 		_, cb := expectRound(items)
 		rd.StopAt = r.Intn(len(cb))
 		rd.Poll = rd.Mode != "manual" && r.Pct(25)
+		rd.ErrEOF = rd.Mode == "until-err" && r.Pct(30)
 		if hooks {
 			if ri == 0 {
 				rd.EEDHooks, rd.EnvHooks = r.Intn(3), r.Intn(3)
@@ -357,6 +360,16 @@ type roundsObs struct {
 }
 
 var errCallback = errors.New("callback failed (marker error of the harness)")
+
+// errCallbackEOF is a callback error that wraps io.EOF, as a callback reading from its own source produces.
+var errCallbackEOF = fmt.Errorf("callback failed (marker error of the harness) reading its own input: %w", io.EOF)
+
+func (rd *rRound) cbErr() error {
+	if rd.ErrEOF {
+		return errCallbackEOF
+	}
+	return errCallback
+}
 
 func runRounds(p *roundsPlan, schedSeed uint64, replay []simrt.Choice, lenient, keepLog bool) (*roundsObs, *simrt.Outcome) {
 	cfg := p.Knobs.Config(schedSeed)
@@ -495,7 +508,7 @@ func runRounds(p *roundsPlan, schedSeed uint64, replay []simrt.Choice, lenient, 
 						see(pkg)
 						if calls == rd.StopAt {
 							calls++
-							return false, errCallback
+							return false, rd.cbErr()
 						}
 						calls++
 						return isFinal(pkg), nil
@@ -683,7 +696,7 @@ func (c03) Run(plan interface{}, schedSeed uint64, replay []simrt.Choice, lenien
 				if d := firstDiff(cb[:rd.StopAt+1], ro.seen); d != "" {
 					v.Violate("wrong-response", "until-err: wrong packages before the abort", "%s: %s", where, d)
 				}
-				if ro.callErr == nil || !errors.Is(ro.callErr, errCallback) {
+				if ro.callErr == nil || !errors.Is(ro.callErr, rd.cbErr()) {
 					v.Violate("wrong-error", "until-err: returned error does not match the callback's error", "%s: NextPackageUntil returned %v", where, ro.callErr)
 				}
 			}
@@ -939,7 +952,7 @@ func (c11) Run(plan interface{}, schedSeed uint64, replay []simrt.Choice, lenien
 				}
 				var eedErr *tds.EEDError
 				isEED := errors.As(ro.callErr, &eedErr)
-				if !errors.Is(ro.callErr, errCallback) {
+				if !errors.Is(ro.callErr, rd.cbErr()) {
 					v.Violate("callback-error", "returned error does not match the callback's error", "%s: NextPackageUntil returned %v", where, ro.callErr)
 				} else if len(before) > 0 && !isEED {
 					v.Violate("callback-error", "error does not carry the messages received so far", "%s: %d messages preceded the failing callback but the error is %T", where, len(before), ro.callErr)
